@@ -255,6 +255,10 @@ func (o *object) hasInstance(of Value) bool {
 		// We should not have a hasInstance method
 		panic(o.runtime.panicTypeError("Object.hasInstance not callable"))
 	}
+	if fn, ok := o.value.(bindFunctionObject); ok {
+		// 15.3.4.5.3: a bound function delegates to its target function
+		return fn.target.hasInstance(of)
+	}
 	if !of.IsObject() {
 		return false
 	}
